@@ -655,14 +655,20 @@ func (g *G) Val(d int) X {
 		}
 	case 13:
 		if g.ok("slice") {
-			lo, hi := g.Val(0), g.Val(0)
+			// operands are generated only when they are written (the placement record must match the text)
 			switch g.R.Intn(3) {
 			case 0:
-				return g.Slice(g.col(), &lo, &hi)
+				arr := g.col()
+				lo, hi := g.Val(0), g.Val(0)
+				return g.Slice(arr, &lo, &hi)
 			case 1:
-				return g.Slice(g.col(), nil, &hi)
+				arr := g.col()
+				hi := g.Val(0)
+				return g.Slice(arr, nil, &hi)
 			}
-			return g.Slice(g.col(), &lo, nil)
+			arr := g.col()
+			lo := g.Val(0)
+			return g.Slice(arr, &lo, nil)
 		}
 	case 14:
 		if g.ok("interval") {
